@@ -207,7 +207,7 @@ func cmdCheck(args []string) int {
 		defer os.RemoveAll(work)
 	}
 	os.RemoveAll(work)
-	quickSec, fullSec := 8, 30
+	quickSec, fullSec := 12, 40
 	all := false
 	if *tier == "thorough" {
 		quickSec, fullSec, all = 60, 60, true
@@ -376,6 +376,10 @@ func runCovers(results []*FuncResult, work string) []coverResult {
 		file := filepath.Join(work, fmt.Sprintf("cover-%x.smt2", h[:6]))
 		os.WriteFile(file, []byte(sb.String()), 0o644)
 		res := runSolver(solvers[0], file, 3)
+		if res.result == "unsat" {
+			os.MkdirAll(filepath.Join(verifDir(), "work", "cover-unsat"), 0o755)
+			os.WriteFile(filepath.Join(verifDir(), "work", "cover-unsat", filepath.Base(file)), []byte(sb.String()), 0o644)
+		}
 		mu.Lock()
 		out = append(out, coverResult{"cover[" + r.Name + "]", res.result})
 		mu.Unlock()
